@@ -509,7 +509,7 @@ def maybe_add_batch_dim(
         if isinstance(obs, np.ndarray):
             obs = obs.reshape(-1, *space_shape)
         else:
-            obs = obs.view(-1, *space_shape)
+            obs = obs.reshape(-1, *space_shape)
     elif len(obs.shape) != len(space_shape) + 1:
         raise ValueError(
             f"Expected observation to have {len(space_shape) + 1} dimensions, got {len(obs.shape)}."
